@@ -984,7 +984,8 @@ class OptionStore:
         the library directory relative to prefix, even though it really
         should not be relied upon.
         '''
-        if not isinstance(value, str):
+        if not isinstance(value, str) or not value:
+            # An empty string is not a path (PurePath('') would turn it into '.')
             return value
         path = self.pure_path_class(value)
         if option.name.endswith('dir') and path.is_absolute() and \
